@@ -374,7 +374,7 @@ def parser_0009(payload: str, msg: Message) -> dict | list[dict]:  # TODO: only 
     # .I --- 10:040239 01:223036 --:------ 0009 003 000000
 
     def _parser(seqx: str) -> dict:
-        assert seqx[:2] in (F9, FC) or int(seqx[:2], 16) < 16
+        assert seqx[:2] in (F9, FA, FC) or int(seqx[:2], 16) < 16
         return {
             SZ_DOMAIN_ID if seqx[:1] == "F" else SZ_ZONE_IDX: seqx[:2],
             "failsafe_enabled": {"00": False, "01": True}.get(seqx[2:4]),
